@@ -23,6 +23,10 @@ func (g *Polygon) Empty() bool {
 }
 
 func (g *Polygon) Valid() bool {
+	if g.base.Exterior == nil {
+		// NewPolygon(nil), there is no position that could be out of range
+		return true
+	}
 	return g.base.Valid()
 }
 
@@ -121,6 +125,10 @@ func (g *Polygon) IntersectsPoly(poly *geometry.Poly) bool {
 }
 
 func (g *Polygon) NumPoints() int {
+	if g.base.Exterior == nil {
+		// NewPolygon(nil)
+		return 0
+	}
 	n := g.base.Exterior.NumPoints()
 	for _, hole := range g.base.Holes {
 		n += hole.NumPoints()
